@@ -339,7 +339,16 @@ def float_histories(seed, n_hist):
                 for step in range(rng.randint(3, 14)):
                     r = rng.rand()
                     if cur and r < 0.25:
-                        g = rng.randn(n); gen.send((-1, g)); Force[:, cur] += g
+                        g = rng.randn(n)
+                        # add-ons that touch only some equations (exact zeros elsewhere): only the last one (the rf mode where there is one), all but the last, one at random
+                        pat = rng.randint(4)
+                        if pat == 1:
+                            g[:-1] = 0.0
+                        elif pat == 2:
+                            g[-1] = 0.0
+                        elif pat == 3:
+                            keep_ = rng.randint(n); g[np.arange(n) != keep_] = 0.0
+                        gen.send((-1, g)); Force[:, cur] += g
                     else:
                         i = rng.randint(1, min(cur + 1, nt - 1) + 1)
                         fv = rng.randn(n); gen.send((i, fv)); Force[:, i] = fv; cur = i
